@@ -25,10 +25,16 @@ RULE = ("arm lists drawn from pattern pools (literal, variable, wildcard, tuple 
         "overflow, gcd by remainder (boundary, Fibonacci-worst-case and random pairs), gcd by subtraction through a helper "
         "(mutual recursion), countdown to 50000 (thorough: 1000000), non-tail sum up to depth 1000; broadcasting of scalar "
         "functions over 6 matrix shapes (total, partial, kind-changing, recursive, bool); wrong arity 0..4 against 1..3 "
-        "parameters; missing function.  non-trivial = distinct case whose specified outcome is a value")
+        "parameters; missing function; declared parameter NAMES read in arm bodies while the pattern position is `*`, binds "
+        "another name, binds the same name (shadowing, also crosswise) or the arm is the shorthand arm `| expr.`: all ordered "
+        "selections of 1..3 arms of a 6-arm one-parameter and a 10-arm two-parameter pool over all small arguments, and 19 "
+        "recursive families (accumulator sum in 5 spellings up to the largest fitting n <= 2000 and one past it, gcd, "
+        "accumulator fibonacci up to the first overflow, argument swap, power, factorial / sum reading the name after the "
+        "nested call returns, a helper whose parameters carry the caller's names crosswise, mutual recursion).  non-trivial = distinct case whose specified outcome is a value")
 ASSUMPTIONS = [
     "arguments and literals are typed literals of exactly the declared kinds, so no implicit conversion takes part "
     "(a literal pattern of another kind than the argument, e.g. `0` against a u8, is outside the family)",
+    "integer literals are kept below 2^53 (larger ones are not read exactly by the parser; results may be larger)",
     "integer arithmetic that leaves the kind's range (a panic in the dev profile) is advisory",
     "arms of one match expression return values of one kind (MatchArmKindMismatch is a typing rule, advisory)",
     "error kinds/messages are not compared (one Err token); a broadcast result is compared element by element "
@@ -49,6 +55,7 @@ def Row(k, zs): return M(1, len(zs), [I(k, z) for z in zs])
 def En(tag, payload=None): return ["e", tag] if payload is None else ["e", tag, payload]
 
 WILD = "_"
+SHORT = "_short"      # the shorthand arm `| expr.` of a function: rendered without pattern, it IS a wildcard arm
 def PV(x): return ["v", x]
 def PL(v): return ["l", v]
 def PT(*ps): return ["t"] + list(ps)
@@ -155,8 +162,11 @@ def r_kind(k, enum_name="en"):
 def r_fn(f):
     name, params, out, arms = f[1], f[2], f[3], f[4:]
     head = "%s(%s) => <%s>" % (name, ", ".join("%s<%s>" % (p, r_kind(k)) for p, k in params), r_kind(out))
-    lines = ["  | %s => %s" % (r_pat(a[1]), r_expr(a[3])) for a in arms]
+    lines = ["  | %s" % r_expr(a[3]) if a[1] == SHORT else "  | %s => %s" % (r_pat(a[1]), r_expr(a[3])) for a in arms]
     return head + "\n" + "\n".join(lines) + "."
+
+def sx_fn(f):
+    return f[:4] + [[a[0], WILD] + a[2:] if a[1] == SHORT else a for a in f[4:]]
 
 def r_global(name, v, enum_vals):
     if v[0] == "e":
@@ -183,7 +193,7 @@ def make_case(tags, defs, main, globs=(), enum=(), fuel=4000):
     src = "\n\n".join(parts)
     case = ["c16",
             ["enum"] + [[t, 1 if pk else 0] for t, pk in enum],
-            ["defs"] + list(defs),
+            ["defs"] + [sx_fn(f) for f in defs],
             ["globals"] + [[n, v] for n, v in globs],
             ["main", main],
             ["fuel", fuel]]
@@ -671,8 +681,162 @@ def stream_arity(tier, rng, kinds):
         yield make_case(dict(stream="arity", kind=k, params=1, args=2), [f], call("h", num(k, a)))
     yield make_case(dict(stream="missing-fn", kind=k), [f], call("nosuch", num(k, 1)))
 
+
+# ---------------------------------------------------------------- declared parameter NAMES
+# Arm bodies that read a declared parameter by its name while the pattern position is `*`, binds a
+# variable of another name, binds the SAME name (shadowing), or the arm is the shorthand arm.  The
+# implementation binds parameter names separately from pattern variables, once per iteration of
+# the tail-call loop (bind_function_inputs in execute_user_function); the model: syms in tail_loop.
+def pn_defs(k):
+    n1 = lambda z: num(k, z)
+    d = {}
+    step = lambda f, a, b: call(f, a, b)
+    zero_arm = arm(PT(PL(I(k, 0)), WILD), None, var("acc"))
+    d["sumacc"] = [fn("sumacc", [("n", kint(k)), ("acc", kint(k))], kint(k),
+                      [zero_arm, arm(PT(PV("k"), WILD), None, call("sumacc", op("sub", var("k"), n1(1)), op("add", var("acc"), var("k"))))])]
+    by_name = lambda f: call(f, op("sub", var("n"), n1(1)), op("add", var("acc"), var("n")))
+    d["sumname"] = [fn("sumname", [("n", kint(k)), ("acc", kint(k))], kint(k), [zero_arm, arm(PT(WILD, WILD), None, by_name("sumname"))])]
+    d["sumwild"] = [fn("sumwild", [("n", kint(k)), ("acc", kint(k))], kint(k), [zero_arm, arm(WILD, None, by_name("sumwild"))])]
+    d["sumshort"] = [fn("sumshort", [("n", kint(k)), ("acc", kint(k))], kint(k), [zero_arm, arm(SHORT, None, by_name("sumshort"))])]
+    # the pattern variable has the name of the OTHER parameter: it shadows it
+    d["sumshadow"] = [fn("sumshadow", [("n", kint(k)), ("acc", kint(k))], kint(k),
+                         [arm(PT(PL(I(k, 0)), PV("n")), None, var("n")),
+                          arm(PT(PV("acc"), PV("n")), None, call("sumshadow", op("sub", var("acc"), n1(1)), op("add", var("n"), var("acc"))))])]
+    d["gcdmix"] = [fn("gcdmix", [("a", kint(k)), ("b", kint(k))], kint(k),
+                      [arm(PT(WILD, PL(I(k, 0))), None, var("a")),
+                       arm(PT(PV("x"), PV("y")), None, call("gcdmix", var("b"), op("mod", var("x"), var("y"))))])]
+    d["gcdname"] = [fn("gcdname", [("a", kint(k)), ("b", kint(k))], kint(k),
+                       [arm(PT(WILD, PL(I(k, 0))), None, var("a")),
+                        arm(PT(WILD, WILD), None, call("gcdname", var("b"), op("mod", var("a"), var("b"))))])]
+    d["fibn"] = [fn("fibn", [("n", kint(k)), ("a", kint(k)), ("b", kint(k))], kint(k),
+                    [arm(PT(PL(I(k, 0)), WILD, WILD), None, var("a")),
+                     arm(PT(PV("j"), WILD, WILD), None, call("fibn", op("sub", var("j"), n1(1)), var("b"), op("add", var("a"), var("b"))))])]
+    d["fibname"] = [fn("fibname", [("n", kint(k)), ("a", kint(k)), ("b", kint(k))], kint(k),
+                       [arm(PT(PL(I(k, 0)), WILD, WILD), None, var("a")),
+                        arm(SHORT, None, call("fibname", op("sub", var("n"), n1(1)), var("b"), op("add", var("a"), var("b"))))])]
+    # simultaneous rebinding: the new arguments are all computed from the OLD parameter values
+    d["swap"] = [fn("swap", [("n", kint(k)), ("a", kint(k)), ("b", kint(k))], kint(k),
+                    [arm(PT(PL(I(k, 0)), WILD, WILD), None, op("add", op("mul", var("a"), n1(10)), var("b"))),
+                     arm(PT(PV("j"), WILD, WILD), None, call("swap", op("sub", var("j"), n1(1)), var("b"), var("a")))])]
+    d["powacc"] = [fn("powacc", [("x", kint(k)), ("e", kint(k)), ("acc", kint(k))], kint(k),
+                      [arm(PT(WILD, PL(I(k, 0)), WILD), None, var("acc")),
+                       arm(PT(WILD, PV("j"), WILD), None, call("powacc", var("x"), op("sub", var("j"), n1(1)), op("mul", var("acc"), var("x"))))])]
+    # non-tail recursion: after the nested activation returns, the name denotes the OUTER argument again
+    d["factname"] = [fn("factname", [("n", kint(k))], kint(k),
+                        [arm(PL(I(k, 0)), None, n1(1)), arm(WILD, None, op("mul", var("n"), call("factname", op("sub", var("n"), n1(1)))))])]
+    d["factmix"] = [fn("factmix", [("n", kint(k))], kint(k),
+                       [arm(PL(I(k, 0)), None, n1(1)), arm(PV("m"), None, op("mul", call("factmix", op("sub", var("n"), n1(1))), var("m")))])]
+    d["factshort"] = [fn("factshort", [("n", kint(k))], kint(k),
+                         [arm(PL(I(k, 0)), None, n1(1)), arm(SHORT, None, op("mul", call("factshort", op("sub", var("n"), n1(1))), var("n")))])]
+    d["sumafter"] = [fn("sumafter", [("n", kint(k))], kint(k),
+                        [arm(PL(I(k, 0)), None, n1(0)), arm(WILD, None, op("add", call("sumafter", op("sub", var("n"), n1(1))), var("n")))])]
+    # a helper whose parameters carry the caller's names in the other order, called inside the tail call
+    d["nested"] = [fn("mixg", [("n", kint(k)), ("acc", kint(k))], kint(k), [arm(PT(WILD, WILD), None, op("add", op("mul", var("n"), n1(2)), var("acc")))]),
+                   fn("nested", [("n", kint(k)), ("acc", kint(k))], kint(k),
+                      [zero_arm, arm(PT(PV("j"), WILD), None, call("nested", op("sub", var("j"), n1(1)), call("mixg", var("acc"), var("n"))))])]
+    # mutual recursion through names
+    d["evenodd"] = [fn("evenodd", [("n", kint(k))], kint(k), [arm(PL(I(k, 0)), None, n1(1)), arm(WILD, None, call("oddeven", op("sub", var("n"), n1(1))))]),
+                    fn("oddeven", [("n", kint(k))], kint(k), [arm(PL(I(k, 0)), None, n1(0)), arm(WILD, None, call("evenodd", op("sub", var("n"), n1(1))))])]
+    return d
+
+def stream_pnames(tier, rng, kinds):
+    quick = tier == "quick"
+    # ---- non-recursive, one parameter
+    def pool1(k):
+        n1 = lambda z: num(k, z)
+        return [arm(PL(I(k, 0)), None, op("add", var("n"), n1(10))),
+                arm(PV("m"), None, op("add", op("add", op("mul", var("n"), n1(2)), var("m")), n1(20))),
+                arm(WILD, None, op("add", var("n"), n1(30))),
+                arm(SHORT, None, op("add", var("n"), n1(40))),
+                arm(PV("n"), None, op("add", var("n"), n1(50))),
+                arm(PL(I(k, 1)), None, op("add", var("n"), n1(60)))]
+    lists = list(ordered_subsets(list(range(6)), 3))
+    if quick:
+        lists = [l for l in lists if len(l) == 1] + pick(rng, [l for l in lists if len(l) == 2], 10) + \
+                pick(rng, [l for l in lists if len(l) == 3], 10)
+    for l in lists:
+        k = kinds.next()
+        pl = pool1(k)
+        f = fn("pf", [("n", kint(k))], kint(k), [pl[i] for i in l])
+        for a in range(4):
+            yield make_case(dict(stream="pname-fn1", kind=k, narms=len(l)), [f], call("pf", num(k, a)))
+    # ---- non-recursive, two parameters
+    def pool2(k):
+        n1 = lambda z: num(k, z)
+        ab = op("add", op("mul", var("a"), n1(3)), var("b"))
+        return [arm(PT(PL(I(k, 0)), WILD), None, op("add", var("b"), n1(10))),
+                arm(PT(PV("x"), WILD), None, op("add", op("mul", var("x"), n1(3)), var("b"))),
+                arm(PT(WILD, PV("y")), None, op("add", op("add", op("mul", var("a"), n1(3)), var("y")), n1(20))),
+                arm(PT(WILD, WILD), None, op("add", ab, n1(30))),
+                arm(WILD, None, op("add", ab, n1(40))),
+                arm(SHORT, None, op("add", ab, n1(50))),
+                arm(PT(PV("b"), PV("a")), None, op("add", op("add", op("mul", var("b"), n1(3)), var("a")), n1(60))),
+                arm(PT(WILD, PL(I(k, 1))), None, op("add", var("a"), n1(70))),
+                arm(PT(PV("a"), WILD), None, op("add", ab, n1(80))),
+                arm(PT(PV("x"), PV("y")), None, op("add", op("add", ab, op("add", op("mul", var("y"), n1(3)), var("x"))), n1(90)))]
+    lists = list(ordered_subsets(list(range(10)), 3))
+    args = [(a, b) for a in range(3) for b in range(3)]
+    if quick:
+        lists = [l for l in lists if len(l) == 1] + pick(rng, [l for l in lists if len(l) == 2], 14) + \
+                pick(rng, [l for l in lists if len(l) == 3], 14)
+        args = [(0, 0), (0, 1), (1, 0), (1, 2), (2, 1)]
+    for l in lists:
+        k = kinds.next()
+        pl = pool2(k)
+        f = fn("pg", [("a", kint(k)), ("b", kint(k))], kint(k), [pl[i] for i in l])
+        for (a, b) in args:
+            yield make_case(dict(stream="pname-fn2", kind=k, narms=len(l)), [f], call("pg", num(k, a), num(k, b)))
+    # ---- recursive
+    for ki, k in enumerate(INT_KINDS):
+        if quick and ki % 3 != 0:
+            continue
+        hi = kmax(k)
+        d = pn_defs(k)
+        top = min(hi, 2 ** 53 - 1)      # see ASSUMPTIONS
+        def rc(fam, main, fuel=600, **tags):
+            return make_case(dict(stream="pname-rec", fam=fam, kind=k, **tags), d[fam], main, fuel=fuel)
+        # largest n whose triangular number fits, capped
+        nmax = 0
+        while (nmax + 1) * (nmax + 2) // 2 <= hi and nmax < 2000:
+            nmax += 1
+        ns = sorted(set([0, 1, 2, 3, 5, 10, nmax] + ([nmax + 1] if nmax < 2000 and nmax + 1 <= hi else [])))
+        for fam in ("sumacc", "sumname", "sumwild", "sumshort", "sumshadow"):
+            for n in ns:
+                for acc in ((0, 1) if n <= (2 if quick else 5) else (0,)):
+                    if n <= hi:
+                        yield rc(fam, call(fam, num(k, n), num(k, acc)), fuel=n + 100, depth=n)
+        pairs = [(0, 0), (0, 3), (3, 0), (1, 1), (12, 18), (18, 12), (17, 5), (100, 75), (89, 55), (top, 1), (top, top - 1), (top, 2)]
+        for fam in ("gcdmix", "gcdname"):
+            for (a, b) in (pairs if not quick else pairs[::2] + [pairs[-1]]):
+                if a <= hi and b <= hi:
+                    yield rc(fam, call(fam, num(k, a), num(k, b)))
+        # fibonacci with accumulators: up to the first overflow of a + b
+        fibs = [0, 1]
+        while fibs[-1] + fibs[-2] <= hi and len(fibs) < 400:
+            fibs.append(fibs[-1] + fibs[-2])
+        nfit = len(fibs) - 2          # fibn(n) computes b' = F(n+1) in its last iteration
+        for fam in ("fibn", "fibname"):
+            for n in sorted(set([0, 1, 2, 3, 7, nfit, nfit + 1] if quick else list(range(0, 13)) + [nfit, nfit + 1])):
+                if 0 <= n <= hi:
+                    yield rc(fam, call(fam, num(k, n), num(k, 0), num(k, 1)), fuel=n + 100)
+        for n in range(0, 4):
+            yield rc("swap", call("swap", num(k, n), num(k, 1), num(k, 2)))
+        for x in (2, 3):
+            for e in ((0, 1, 4) if quick else range(0, 6)):
+                if x ** e <= hi:
+                    yield rc("powacc", call("powacc", num(k, x), num(k, e), num(k, 1)))
+        for fam in ("factname", "factmix", "factshort"):
+            for n in ((0, 1, 3, 5) if quick else range(0, 7)):
+                yield rc(fam, call(fam, num(k, n)))
+        for n in ((0, 1, 4, 10) if quick else range(0, 12)):
+            yield rc("sumafter", call("sumafter", num(k, n)))
+        for n in range(0, 4):
+            yield rc("nested", call("nested", num(k, n), num(k, 1)))
+        for n in ((0, 1, 2, 7) if quick else range(0, 9)):
+            yield rc("evenodd", call("evenodd", num(k, n)))
+
 STREAMS = [stream_fn1, stream_fn2, stream_fnarr, stream_fnenum, stream_match_int, stream_match_tuple, stream_match_arr,
-           stream_match_enum, stream_match_bool, stream_recursion, stream_broadcast, stream_arity]
+           stream_match_enum, stream_match_bool, stream_recursion, stream_broadcast, stream_arity, stream_pnames]
 
 def generate(tier, rng):
     kinds = Kinds()
